@@ -474,7 +474,9 @@ func (w *walker) newLit(c ctx, fl *ast.FuncLit, kind string) *node {
 	n.lit = true
 	n.pos = w.pos(fl)
 	w.g.parents[[2]int{n.id, c.cur.id}] = true
-	w.g.lits[[2]string{n.name, kind}] = true
+	if kind != "" {
+		w.g.lits[[2]string{n.name, kind}] = true
+	}
 	w.block(ctx{cur: n, direct: false}, fl.Body)
 	return n
 }
@@ -487,10 +489,27 @@ func (w *walker) useFunc(c ctx, e ast.Expr, kind, sem string) bool {
 	var target *node
 	if fl, ok := e.(*ast.FuncLit); ok {
 		target = w.newLit(c, fl, kind)
-	} else if f := w.funcObj(e); f != nil {
-		if _, isCall := e.(*ast.CallExpr); isCall {
+	} else if ce, isCall := e.(*ast.CallExpr); isCall {
+		// a "factory": a call of an analysed function that returns a function value
+		// (`s.timerHandler(mgr)`); the closures it returns are used the way this call's result is
+		f := w.funcObj(ce.Fun)
+		if f == nil || f.Pkg() == nil || !w.analysed[f.Pkg().Path()] {
 			return false
 		}
+		if _, isIface := w.isIfaceCall(ce.Fun); isIface {
+			return false
+		}
+		sig, _ := f.Type().(*types.Signature)
+		if sig == nil || sig.Results().Len() != 1 {
+			return false
+		}
+		if _, isFn := sig.Results().At(0).Type().Underlying().(*types.Signature); !isFn {
+			return false
+		}
+		factoryUses[funcName(f)] = append(factoryUses[funcName(f)], factoryUse{kind, sem, c.cur.id, c.direct})
+		w.call(c, ce, "call")
+		return true
+	} else if f := w.funcObj(e); f != nil {
 		if _, isIface := w.isIfaceCall(e); isIface {
 			w.g.lits[[2]string{"<method value of interface " + funcName(f) + "> in " + c.cur.name, "ifacevalue:" + kind}] = true
 			return true
@@ -501,23 +520,42 @@ func (w *walker) useFunc(c ctx, e ast.Expr, kind, sem string) bool {
 			return true
 		}
 		target = w.g.node(name)
-		w.g.lits[[2]string{name, "funcvalue:" + kind}] = true
+		if kind != "" {
+			w.g.lits[[2]string{name, kind}] = true
+		}
 		w.g.parents[[2]int{target.id, c.cur.id}] = true
 	} else {
 		return false
 	}
-	switch sem {
-	case "sync":
-		w.g.calls[edge{c.cur.id, target.id, c.direct}] = true
-	case "timer":
-		w.g.tmRoots[target.id] = true
-	case "later":
-	default:
-		w.g.calls[edge{c.cur.id, target.id, c.direct}] = true
-		w.g.tmRoots[target.id] = true
-	}
+	w.applySem(c.cur.id, c.direct, target, sem)
 	return true
 }
+
+func (w *walker) applySem(from int, direct bool, target *node, sem string) {
+	applySem(w.g, from, direct, target, sem)
+}
+
+func applySem(g *graph, from int, direct bool, target *node, sem string) {
+	switch sem {
+	case "sync":
+		g.calls[edge{from, target.id, direct}] = true
+	case "timer":
+		g.tmRoots[target.id] = true
+	case "later", "pending":
+	default:
+		g.calls[edge{from, target.id, direct}] = true
+		g.tmRoots[target.id] = true
+	}
+}
+
+type factoryUse struct {
+	kind, sem string
+	from      int
+	direct    bool
+}
+
+var factoryUses = map[string][]factoryUse{} // factory function -> how its result is used
+var returnsOf = map[string][]*node{}        // factory function -> the function values it returns
 
 func (w *walker) call(c ctx, call *ast.CallExpr, how string) {
 	fun := unparen(call.Fun)
@@ -590,6 +628,8 @@ func (w *walker) call(c ctx, call *ast.CallExpr, how string) {
 		calleeName := resolveSink(calleeName, ai, 0)
 		kind, sem := "arg:"+calleeName, "unknown"
 		switch {
+		case strings.HasPrefix(calleeName, "stored:"):
+			kind, sem = calleeName, "later" // kept in a struct field; run by whoever calls that field
 		case strings.HasPrefix(calleeName, "calls:"):
 			kind, sem = "sync:"+strings.TrimPrefix(calleeName, "calls:"), "sync"
 		case timerCallees[calleeName]:
@@ -608,11 +648,13 @@ func (w *walker) call(c ctx, call *ast.CallExpr, how string) {
 }
 
 // paramFlow[function][parameter index] = what an analysed function does with a func-typed parameter:
-// {"fwd", callee, index} it only hands it on to one callee; {"call"} it only calls it; {"other"}.
+// {"fwd", callee, index} it only hands it on to one callee; {"call"} it only calls it;
+// {"store", field} it only keeps it in a struct field (composite literal, assignment, append); {"other"}.
 type flow struct {
-	kind string
-	to   string
-	idx  int
+	kind  string
+	to    string
+	idx   int
+	field string
 }
 
 var paramFlow = map[string]map[int]flow{}
@@ -630,8 +672,72 @@ func resolveSink(callee string, idx, depth int) string {
 		return resolveSink(fl.to, fl.idx, depth+1)
 	case "call":
 		return "calls:" + callee
+	case "store":
+		return "stored:" + fl.field
 	}
 	return callee
+}
+
+// storedField: the identifier (a func-typed parameter) is only put into a struct field here —
+// `T{f: p}`, `T{…, p, …}`, `x.f = p`, `x.f = append(x.f, p)`; returns "field pkg.T.f" (with "[]" for append).
+func storedField(info *types.Info, stack []ast.Node, id *ast.Ident) string {
+	n := len(stack)
+	fieldOfSel := func(e ast.Expr) string {
+		sel, ok := unparen(e).(*ast.SelectorExpr)
+		if !ok {
+			return ""
+		}
+		if s := info.Selections[sel]; s != nil && s.Kind() == types.FieldVal {
+			return "field " + typeName(s.Recv()) + "." + sel.Sel.Name
+		}
+		return ""
+	}
+	structOf := func(cl *ast.CompositeLit) (*types.Struct, string) {
+		tv, ok := info.Types[cl]
+		if !ok || tv.Type == nil {
+			return nil, ""
+		}
+		st, _ := tv.Type.Underlying().(*types.Struct)
+		return st, typeName(tv.Type)
+	}
+	switch parent := stack[n-2].(type) {
+	case *ast.KeyValueExpr:
+		if parent.Value != ast.Expr(id) || n < 3 {
+			return ""
+		}
+		if cl, ok := stack[n-3].(*ast.CompositeLit); ok {
+			if st, tn := structOf(cl); st != nil {
+				if k, ok := parent.Key.(*ast.Ident); ok {
+					return "field " + tn + "." + k.Name
+				}
+			}
+		}
+	case *ast.CompositeLit:
+		if st, tn := structOf(parent); st != nil {
+			for i, e := range parent.Elts {
+				if e == ast.Expr(id) && i < st.NumFields() {
+					return "field " + tn + "." + st.Field(i).Name()
+				}
+			}
+		}
+	case *ast.AssignStmt:
+		for i, e := range parent.Rhs {
+			if e == ast.Expr(id) && i < len(parent.Lhs) && len(parent.Lhs) == len(parent.Rhs) {
+				return fieldOfSel(parent.Lhs[i])
+			}
+		}
+	case *ast.CallExpr:
+		if fn, ok := parent.Fun.(*ast.Ident); ok && fn.Name == "append" && n >= 3 {
+			if _, isB := info.Uses[fn].(*types.Builtin); isB {
+				if as, ok := stack[n-3].(*ast.AssignStmt); ok && len(as.Lhs) == 1 && len(as.Rhs) == 1 && as.Rhs[0] == ast.Expr(parent) {
+					if f := fieldOfSel(as.Lhs[0]); f != "" {
+						return f + "[]"
+					}
+				}
+			}
+		}
+	}
+	return ""
 }
 
 // summarise computes paramFlow for one function declaration.
@@ -682,7 +788,9 @@ func summarise(info *types.Info, fd *ast.FuncDecl, name string) {
 		}
 		f := flow{kind: "other"}
 		if len(stack) >= 2 && !inLit {
-			if call, ok := stack[len(stack)-2].(*ast.CallExpr); ok {
+			if fld := storedField(info, stack, id); fld != "" {
+				f = flow{kind: "store", field: fld}
+			} else if call, ok := stack[len(stack)-2].(*ast.CallExpr); ok {
 				if unparen(call.Fun) == ast.Expr(id) {
 					f = flow{kind: "call"}
 				} else {
@@ -848,9 +956,24 @@ func (w *walker) stmt(c ctx, s ast.Stmt) {
 		}
 	case *ast.ReturnStmt:
 		for _, e := range x.Results {
-			// a returned closure runs when its receiver calls it; the kind is reviewed in Lean
-			if _, isLit := unparen(e).(*ast.FuncLit); isLit && w.useFunc(c, e, "return:"+w.top, "later") {
-				continue
+			// a function value returned by a top-level function ("factory") is classified by how the
+			// callers use the call's result (resolved after all packages are walked)
+			if !c.cur.lit {
+				ue := unparen(e)
+				if fl, isLit := ue.(*ast.FuncLit); isLit {
+					returnsOf[w.top] = append(returnsOf[w.top], w.newLit(c, fl, ""))
+					continue
+				}
+				if _, isCall := ue.(*ast.CallExpr); !isCall {
+					if f := w.funcObj(ue); f != nil && f.Pkg() != nil && w.analysed[f.Pkg().Path()] {
+						if _, isIface := w.isIfaceCall(ue); !isIface {
+							n := w.g.node(funcName(f))
+							w.g.parents[[2]int{n.id, c.cur.id}] = true
+							returnsOf[w.top] = append(returnsOf[w.top], n)
+							continue
+						}
+					}
+				}
 			}
 			w.expr(c, e)
 		}
@@ -1063,6 +1186,27 @@ func main() {
 					}
 				}
 			}
+		}
+	}
+
+	// factories: the closures a function returns are used the way its callers use the result
+	for f, nodes := range returnsOf {
+		uses := factoryUses[f]
+		for _, n := range nodes {
+			if len(uses) == 0 {
+				g.lits[[2]string{n.name, "return:" + f}] = true
+				continue
+			}
+			for _, u := range uses {
+				g.lits[[2]string{n.name, u.kind}] = true
+				g.parents[[2]int{n.id, u.from}] = true
+				applySem(g, u.from, u.direct, n, u.sem)
+			}
+		}
+	}
+	for f := range factoryUses {
+		if len(returnsOf[f]) == 0 {
+			g.lits[[2]string{"<function value returned by " + f + " is not a literal or named function>", "opaque-factory"}] = true
 		}
 	}
 
